@@ -14,6 +14,8 @@ commands (one per line):
   C           close fds 0,1,2                      -> ack 'c'
   X <n>       os._exit(n)                          (no ack)
   K <sig>     os.kill(self, sig)                   (ack 'k' if still alive)
+  D <sig> <dir>  like K, but first allows a (tiny) core file and changes to <dir>: a core-dumping signal then sets the
+              'core dumped' bit of the wait status
   R           report bytes read from fd 0 so far   -> ack 'r <hex>'
   N           number of bytes read so far          -> ack 'n <count> <eof>'
   E <0|1>     set tty ECHO flag                    -> ack 'e'
@@ -120,6 +122,22 @@ def main():
                 except (OSError, ValueError):
                     pass
                 os.kill(os.getpid(), int(arg))
+                send('k')
+            elif c == 'D':
+                a = arg.split()
+                try:
+                    import resource
+                    hard = resource.getrlimit(resource.RLIMIT_CORE)[1]
+                    want = 65536 if hard == resource.RLIM_INFINITY else min(65536, hard)
+                    resource.setrlimit(resource.RLIMIT_CORE, (want, hard))
+                    os.chdir(a[1])
+                except Exception:
+                    pass
+                try:
+                    signal.signal(int(a[0]), signal.SIG_DFL)
+                except (OSError, ValueError):
+                    pass
+                os.kill(os.getpid(), int(a[0]))
                 send('k')
             elif c == 'R':
                 # drain what is readable right now first
